@@ -48,7 +48,8 @@ class QueryPlanner:
         # allow to select from mindsdb namespace
         _projects.add('mindsdb')
 
-        self.default_namespace = default_namespace
+        # like every other catalog name: compared in lower case
+        self.default_namespace = default_namespace.lower() if isinstance(default_namespace, str) else default_namespace
 
         # legacy parameter
         self.predictor_namespace = predictor_namespace.lower() if predictor_namespace else 'mindsdb'
